@@ -625,4 +625,5 @@ class Resolver:
 
     def call_resolves_to(self, fn: FuncInfo, call: ast.Call, *keys: str) -> bool:
         names = self.callee_names(fn, call)
-        return any(n in keys for n in names)
+        wanted = {self.u.canonical(k) for k in keys} | set(keys)
+        return any(n in wanted for n in names)
